@@ -178,6 +178,18 @@ def make_pool(rng, cplx):
             out.set_zero()
             out.data[...] += np.roll(x.asarray(), -1) ** self.p
 
+    class ReturnArg(odl.Operator):
+        """Identity whose out-of-place result IS its argument (as RealPart on a real space):
+        an expression class that feeds it a cached temporary returns that temporary."""
+
+        def __init__(self, space):
+            super(ReturnArg, self).__init__(space, space, linear=True)
+
+        def _call(self, x, out=None):
+            if out is None:
+                return x
+            out.assign(x)
+
     mk = (lambda n: odl.cn(n)) if cplx else (lambda n: odl.rn(n))
     spaces = {2: mk(2), 3: mk(3)}
 
@@ -222,6 +234,9 @@ def make_pool(rng, cplx):
         add('scale', 'scale~{}~{}'.format(n, cs(c)), odl.ScalingOperator(sp, c), True, False)
         add('ident', 'ident~{}'.format(n), odl.IdentityOperator(sp), True, False)
         add('pow2', 'pow~{}~2'.format(n), odl.PowerOperator(sp, 2), False, False)
+        add('retarg', 'ident~{}'.format(n), ReturnArg(sp))
+        if not cplx:
+            add('repartr', 'ident~{}'.format(n), odl.RealPart(sp))   # returns its argument
         add('shiftsq', 'shift~{}~2'.format(n), ShiftPower(sp, 2))
         add('shift', 'shift~{}~1'.format(n), ShiftPower(sp, 1))
         if n == 3:
@@ -448,19 +463,55 @@ def vec_space(spaces, entries):
     return spaces[len(entries)]
 
 
-def pybuild(ast, pool, spaces):
-    """Evaluate the expression with the real Python operators."""
+CTOR_FORMS = {'c.rscal': 's.rmul', 'c.comp': 'mul', 'c.sum': 'add'}
+
+
+def plain(ast):
+    """the same expression with the direct-constructor forms (`c.*`, user-supplied temporaries)
+    replaced by the overload forms that have the same table value"""
+    if ast[0] == 'L':
+        return ast
+    k = CTOR_FORMS.get(ast[0], ast[0])
+    return (k,) + tuple(plain(a) if isinstance(a, tuple) and a and isinstance(a[0], str) and
+                        (a[0] == 'L' or a[0] in BOPS or a[0] in SOPS or a[0] in VOPS or
+                         a[0] in CTOR_FORMS or a[0] in ('neg', 'pow')) else a for a in ast[1:])
+
+
+def pybuild(ast, pool, spaces, keep=None, memo=None):
+    """Evaluate the expression with the real Python operators.  `keep` collects the user's
+    vectors (the caller still owns them), `memo` makes equal sub-expressions ONE object."""
     import odl
     k = ast[0]
     if k == 'L':
         return pool[ast[1]].op
-    a = pybuild(ast[1], pool, spaces)
+    key = repr(ast)
+    if memo is not None and key in memo:
+        return memo[key]
+    r = _pybuild(ast, pool, spaces, keep, memo)
+    if memo is not None:
+        memo[key] = r
+    return r
+
+
+def _pybuild(ast, pool, spaces, keep, memo):
+    import odl
+    k = ast[0]
+
+    def sub(t):
+        return pybuild(t, pool, spaces, keep, memo)
+
+    def vec(entries):
+        v = vec_space(spaces, entries).element(entries)
+        if keep is not None:
+            keep.append(v)
+        return v
+    a = sub(ast[1])
     if k == 'neg':
         return -a
     if k == 'pow':
         return a ** ast[2]
     if k in BOPS:
-        b = pybuild(ast[2], pool, spaces)
+        b = sub(ast[2])
         if k == 'add':
             return a + b
         if k == 'sub':
@@ -472,15 +523,24 @@ def pybuild(ast, pool, spaces):
                 return odl.solvers.FunctionalProduct(a, b)
             return odl.OperatorPointwiseProduct(a, b)
         return odl.solvers.FunctionalQuotient(a, b)
+    # direct constructor calls with USER-SUPPLIED temporaries
+    if k == 'c.rscal':
+        return odl.OperatorRightScalarMult(a, ast[2], tmp=a.domain.element())
+    if k == 'c.comp':
+        b = sub(ast[2])
+        return odl.OperatorComp(a, b, tmp=b.range.element())
+    if k == 'c.sum':
+        b = sub(ast[2])
+        return odl.OperatorSum(a, b, tmp_ran=a.range.element(), tmp_dom=a.domain.element())
     if len(ast) > 3 and k in ('s.lmul', 's.rmul', 'v.lmul', 'v.rmul'):
-        o = ast[2] if k in SOPS else vec_space(spaces, ast[2]).element(ast[2])
+        o = ast[2] if k in SOPS else vec(ast[2])
         return (o @ a) if k.endswith('lmul') else (a @ o)
     if k in SOPS:
         s = ast[2]
         return {'s.lmul': lambda: s * a, 's.rmul': lambda: a * s, 's.div': lambda: a / s,
                 's.add': lambda: a + s, 's.radd': lambda: s + a, 's.sub': lambda: a - s,
                 's.rsub': lambda: s - a}[k]()
-    v = vec_space(spaces, ast[2]).element(ast[2])
+    v = vec(ast[2])
     return {'v.lmul': lambda: v * a, 'v.rmul': lambda: a * v, 'v.add': lambda: a + v,
             'v.radd': lambda: v + a, 'v.sub': lambda: a - v, 'v.rsub': lambda: v - a}[k]()
 
@@ -675,7 +735,8 @@ def rand_point(rng, n, cplx):
 def run_real(case, pool, spaces, pool_ids):
     """Everything the real code says about one case."""
     import odl
-    ast, xs = case['ast'], case['x']
+    ast_build, xs = case['ast'], case['x']
+    ast = plain(ast_build)      # the overload expression with the same table value
     res = {'problems': []}
     if div_by_zero(ast):
         # `A / 0` has no table value.  Python zero: ZeroDivisionError; NumPy zero: an operator
@@ -693,8 +754,9 @@ def run_real(case, pool, spaces, pool_ids):
             if pytype(ast, pool) is not None or True:
                 res['skip'] += '(raised {})'.format(type(e).__name__)
         return res
+    keep = []
     try:
-        op = pybuild(ast, pool, spaces)
+        op = pybuild(ast_build, pool, spaces, keep=keep, memo=case.get('memo'))
         if not isinstance(op, odl.Operator):
             raise TypeError('result is not an Operator: {!r}'.format(type(op)))
         res['status'] = 'ok'
@@ -795,6 +857,13 @@ def run_real(case, pool, spaces, pool_ids):
                         '{} value {} differs from the documented table value {}'.format(
                             'out-of-place' if name == 'val' else 'in-place (out=)',
                             showv(got), showv(res['ref'])))
+        # ownership / history strata (all cases with user vectors or shared objects, a sample
+        # of the others)
+        if not res['problems'] and isinstance(res.get('ref'), list) and \
+                ((keep and case.get('psample', 1.0) < 0.45) or case.get('protocol') or
+                 case.get('psample', 1.0) < 0.12):
+            res['problems'] += protocol_checks(op, x, res['ref'], res.get('exact', False), keep,
+                                               case.get('hit'))
         # linearity flag
         exp_lin = lin_expected(ast, pool)
         if res['lin'] and not exp_lin:
@@ -812,6 +881,86 @@ def run_real(case, pool, spaces, pool_ids):
 
 
 REAL_LINEAR_ONLY = ('repart', 'impart')
+
+
+def protocol_checks(op, x, ref, exact_ok, keep, hit=None):
+    """OWNERSHIP and HISTORY strata (oracle on the real code).  The table value of a built
+    expression must not depend on what the caller does to his vectors AFTER building it (the
+    overloads store `other.copy()`), nor on earlier evaluations (results must not alias cached
+    temporaries or each other).  `ref` is the table value at `x` computed from the ORIGINAL
+    operands.  Only for vector-valued results."""
+    import odl
+    problems = []
+    if not isinstance(ref, list) or None in ref:
+        return problems
+    if isinstance(op.range, odl.set.sets.Field):
+        # scalar results cannot alias anything; only the ownership of the user's vectors
+        try:
+            if keep:
+                for v in keep:
+                    v.data[...] = v.data * (-2) + 3
+                with np.errstate(all='ignore'):
+                    got = [exact(v) for v in flat(op(x))]
+                if not same(got, ref, exact_ok):
+                    problems.append('ownership (the caller overwrote the vectors the expression '
+                                    'was built from; out-of-place): value {} differs from the '
+                                    'documented table value {}'.format(showv(got), showv(ref)))
+                if hit:
+                    hit('stratum/ownership')
+        except ZeroDivisionError:
+            pass
+        except Exception as e:  # noqa
+            problems.append('protocol evaluation raises {}: {}'.format(type(e).__name__, str(e)[:120]))
+        return problems
+
+    def val(y):
+        return [exact(v) for v in flat(y)]
+
+    def check(what, got):
+        if not same(got, ref, exact_ok):
+            problems.append('{}: value {} differs from the documented table value {}'.format(
+                what, showv(got), showv(ref)))
+    try:
+        with np.errstate(all='ignore'):
+            x2 = x.space.element(np.roll(x.asarray(), 1) * 2 - 1)
+            # --- history: first result kept across later evaluations
+            y1 = op(x)
+            op(x2)
+            o2 = op.range.element()
+            op(x2, out=o2)
+            check('history (out-of-place result kept while the operator is evaluated again)',
+                  val(y1))
+            o1 = op.range.element()
+            o1.data[...] = np.nan
+            op(x, out=o1)
+            y2 = op(x2)
+            check('history (in-place result kept while the operator is evaluated again)', val(o1))
+            del y2
+            if hit:
+                hit('stratum/history')
+            # --- ownership: the caller reuses / overwrites his vectors
+            if keep:
+                for v in keep:
+                    if v.space == op.range:
+                        op(x, out=v)
+                        check('ownership (a vector the expression was built from is used as '
+                              '`out`)', val(v))
+                        break
+                for v in keep:
+                    v.data[...] = v.data * (-2) + 3
+                check('ownership (the caller overwrote the vectors the expression was built '
+                      'from; out-of-place)', val(op(x)))
+                o3 = op.range.element()
+                op(x, out=o3)
+                check('ownership (the caller overwrote the vectors the expression was built '
+                      'from; in-place)', val(o3))
+                if hit:
+                    hit('stratum/ownership')
+    except ZeroDivisionError:
+        pass
+    except Exception as e:  # noqa
+        problems.append('protocol evaluation raises {}: {}'.format(type(e).__name__, str(e)[:120]))
+    return problems[:3]
 
 
 def linear_numerically(op, spaces, case, pool):
@@ -980,7 +1129,7 @@ def systematic_cases(ctx, pool, cplx, leaf_kinds):
             if ty1 is None or ty1[0] == 'F':
                 continue
             twos = level_forms(rng, pool, cplx, one, ty1)
-            keep = (0.1 if cplx else 0.16) if ctx.quick else 0.4
+            keep = (0.06 if cplx else 0.1) if ctx.quick else 0.4
             twos = [t for t in twos if rng.random() < keep]
             for two in twos:
                 if degree(two, pool) > 12:
@@ -1288,6 +1437,97 @@ def mixed_stream(ctx, count=True, deadline=None):
             return
 
 
+def protocol_cases(ctx, pool, cplx):
+    """HISTORY stratum beyond single objects: constructor calls with USER-SUPPLIED temporaries
+    (tmp / tmp_ran / tmp_dom), leaves whose result aliases their argument, and expressions in
+    which ONE operator object occurs several times (sub-expressions are memoised)."""
+    rng = ctx.rng
+    for n in (2, 3):
+        d = 'v{}'.format(n)
+        sq = [('L', i) for i, l in enumerate(pool) if l.dom == d and l.ran == d and
+              l.kind in ('retarg', 'repartr', 'ident', 'pow2', 'shiftsq', 'shift', 'mat', 'scale',
+                         'repart')]
+        scale = [('L', i) for i, l in enumerate(pool) if l.kind == 'scale' and l.dom == d][0]
+        scal = [2.0, 0.5, -1] + ([1j, 2 - 1j] if cplx else [])
+        if ctx.quick:
+            sq = [b for b in sq if pool[b[1]].kind in ('retarg', 'repartr', 'pow2', 'shiftsq',
+                                                       'mat', 'repart')]
+            scal = [2.0] + ([1j] if cplx else [-1])
+        for b in sq:
+            for s_ in scal:
+                c = ('c.rscal', b, s_)
+                yield c
+                yield ('add', c, ('s.rmul', c, 3.0))          # B + B*3.0 (inherits the tmp)
+                yield ('add', c, ('mul', c, scale))           # B + B*S
+                yield ('sub', ('s.lmul', c, 2.0), c)
+                yield ('v.add', c, rand_vec(rng, n, cplx))
+            for b2 in sq[:4]:
+                yield ('c.comp', b, b2)
+                yield ('add', ('c.comp', b, b2), ('c.comp', b, b2))
+                yield ('c.sum', b, b2)
+                yield ('s.rmul', ('c.sum', b, b2), 2.0)
+                yield ('c.comp', ('c.rscal', b, 2.0), ('c.sum', b2, b))
+            yield ('add', b, b)
+            yield ('mul', ('add', b, b), ('add', b, b))
+            v = rand_vec(rng, n, cplx)
+            yield ('add', ('v.lmul', b, v), ('v.rmul', b, v))
+
+
+def protocol_stream(ctx, count=True, deadline=None):
+    import time
+    for cplx in (False, True):
+        pool, spaces, pool_ids = setup(ctx, cplx, 20260926)
+        for ast in protocol_cases(ctx, pool, cplx):
+            n = int(pool[sorted(used_leaves(ast))[0]].dom[1:])
+            case = {'ast': ast, 'cplx': cplx, 'x': rand_point(ctx.rng, n, cplx), 'stream': 'protocol',
+                    'protocol': True, 'memo': {}, 'psample': 0.0,
+                    'hit': ctx.hit if count else None, 'pool_seed': 20260926}
+            case['forms'] = forms_of(plain(ast))
+            with np.errstate(all='ignore'):
+                real = run_real(case, pool, spaces, pool_ids)
+            desc = {'expr': show_b(ast), 'x': [str(v) for v in case['x']],
+                    'field': 'complex' if cplx else 'real', 'stream': 'protocol',
+                    'leaves': {'L{}'.format(i): pool[i].spec for i in sorted(used_leaves(ast))},
+                    'ast': repr(ast), 'pool_seed': 20260926, 'protocol': True}
+            for p in real['problems']:
+                PENDING.append((size(plain(ast)), len(PENDING),
+                                problem_class(p, None, None, None) + ' protocol expr root={} '
+                                'leaves={}'.format(ast[0], '+'.join(sorted(
+                                    {pool[i].kind for i in used_leaves(ast)}))),
+                                '{} :: {}'.format(desc['expr'], p)[:700], desc))
+            if count:
+                ctx.case(('protocol', ast[0], cplx) if real.get('status') == 'ok' else None)
+                ctx.hit('stream/protocol')
+            else:
+                ctx.evaluations += 1
+            if deadline is not None and (PENDING or time.time() > deadline):
+                return
+
+
+def show_b(ast):
+    """source-like text of an expression with constructor forms"""
+    if not has_ctor(ast):
+        return show(ast)
+    if ast[0] == 'c.rscal':
+        return 'OperatorRightScalarMult({}, {!r}, tmp=…)'.format(show_b(ast[1]), ast[2])
+    if ast[0] == 'c.comp':
+        return 'OperatorComp({}, {}, tmp=…)'.format(show_b(ast[1]), show_b(ast[2]))
+    if ast[0] == 'c.sum':
+        return 'OperatorSum({}, {}, tmp_ran=…, tmp_dom=…)'.format(show_b(ast[1]), show_b(ast[2]))
+    return '{}({})'.format(ast[0], ', '.join(show_b(a) if is_expr(a) else repr(a)
+                                             for a in ast[1:3]))
+
+
+def is_expr(a):
+    return isinstance(a, tuple) and len(a) >= 2 and isinstance(a[0], str) and \
+        (a[0] == 'L' or a[0] in BOPS or a[0] in SOPS or a[0] in VOPS or a[0] in CTOR_FORMS or
+         a[0] in ('neg', 'pow'))
+
+
+def has_ctor(a):
+    return is_expr(a) and (a[0] in CTOR_FORMS or any(has_ctor(b) for b in a[1:3]))
+
+
 def line_of(case, pool):
     """Only the leaves the expression uses go on the wire (renumbered 0..k-1; the answer's
     tree is renumbered back in `process`)."""
@@ -1317,6 +1557,10 @@ def key_of(case, real, pool):
 
 
 def problem_class(p, case, real, pool):
+    if p.startswith('ownership'):
+        return 'ownership;'
+    if p.startswith('history'):
+        return 'history;'
     if 'flag lost' in p:
         return 'flag-lost;'
     if p.startswith('is_linear=True but'):
@@ -1350,6 +1594,9 @@ def process(ctx, cases, pool, spaces, pool_ids, count=True):
     t0 = time.time()
     for c in cases:
         c['forms'] = forms_of(c['ast'])
+        c['psample'] = ctx.rng.random() if (ctx.quick and c['stream'] in ('level2', 'random')) \
+            else 0.0
+        c['hit'] = ctx.hit if count else None
         with np.errstate(all='ignore'):
             reals.append(run_real(c, pool, spaces, pool_ids))
         lines.append(line_of(c, pool))
@@ -1507,7 +1754,8 @@ MODEL_BRANCHES = ['class/' + n for n in (
     'FunctionalRightVectorMult', 'FunctionalLeftVectorMult', 'ConstantFunctional',
     'ZeroFunctional')] + ['dispatch/reflected-first-add', 'dispatch/reflected-first-mul', 'raise/OpTypeError', 'raise/TypeError',
                           'skip/div-by-zero-scalar(raised)', 'skip/div-by-zero-scalar(built)',
-                          'mixed/well-typed']
+                          'mixed/well-typed', 'stratum/ownership', 'stratum/history',
+                          'stream/protocol']
 
 
 def run(ctx):
@@ -1524,7 +1772,7 @@ def run(ctx):
 
 def _run(ctx):
     quick = ctx.quick
-    n_rand = 1000 if quick else 8000
+    n_rand = 800 if quick else 8000
     depth = 6 if quick else 9
     kinds_q = ('pow2', 'mat', 'l2sq', 'linf', 'inner', 'constf', 'repart', 'shiftsq')
     kinds_t = ('pow2', 'pow3', 'mat', 'scale', 'ident', 'l2sq', 'linf', 'inner', 'constf', 'zerof',
@@ -1537,6 +1785,7 @@ def _run(ctx):
                lambda pool: systematic_cases(ctx, pool, cplx, kinds_q if quick else kinds_t))
         stream(ctx, cplx, seed, lambda pool: targeted_cases(ctx, pool, cplx))
     mixed_stream(ctx)
+    protocol_stream(ctx)
 
 
 SEARCH_SECONDS = 50
@@ -1555,6 +1804,11 @@ def search(ctx, broken):
         # alias-unsafe leaves first: a broken in-place pin / _call extraction shows there
         kinds = ('shiftsq', 'shift', 'pow2', 'pow3', 'mat', 'scale', 'l2sq', 'linf', 'inner',
                  'constf', 'zerof', 'repart', 'impart')
+        # ownership / history strata first: a broken pin, lemma or extraction about copies,
+        # temporaries or _call bodies shows there
+        protocol_stream(ctx, count=False, deadline=deadline)
+        if PENDING or time.time() > deadline:
+            return
         mixed_stream(ctx, count=False, deadline=deadline)
         if PENDING or time.time() > deadline:
             return
@@ -1583,8 +1837,16 @@ def replay(ctx, case):
         return '; '.join(problems)[:600] if problems else None
     cplx = case['field'] == 'complex'
     pool, spaces, pool_ids = setup(ctx, cplx, case['pool_seed'])
+    if case.get('protocol'):
+        a = eval(case['ast'], {'np': np, 'Fraction': Fraction, '__builtins__': {}})
+        c = {'ast': a, 'cplx': cplx, 'stream': 'replay', 'protocol': True, 'memo': {},
+             'psample': 0.0, 'x': [complex(v) if 'j' in v else float(v) for v in case['x']],
+             'forms': forms_of(plain(a))}
+        with np.errstate(all='ignore'):
+            real = run_real(c, pool, spaces, pool_ids)
+        return '; '.join(real['problems'])[:600] if real['problems'] else None
     c = {'ast': eval(case['ast'], {'np': np, 'Fraction': Fraction, '__builtins__': {}}),
-         'cplx': cplx, 'stream': 'replay',
+         'cplx': cplx, 'stream': 'replay', 'psample': 0.0,
          'x': [complex(v) if 'j' in v else float(v) for v in case['x']]}
     c['forms'] = forms_of(c['ast'])
     with np.errstate(all='ignore'):
